@@ -155,7 +155,15 @@ def check(prog, rep, tier):
     f = prog.func('yabgp.api.utils.manual_stop')
     calls = [n for n in ast.walk(f.node) if isinstance(n, ast.Call) and isinstance(n.func, ast.Attribute)
              and n.func.attr == 'manual_stop']
-    if len(calls) == 1:
+    uncond = len(calls) == 1 and not common.conds_at(f.node, calls[0])
+    if len(calls) == 1 and not uncond:
+        cs = common.conds_at(f.node, calls[0])
+        rep.bad('R13.d', 'rest-manual_stop', file=f.file, line=calls[0].lineno, func=f.qualname,
+                found='the REST helper reaches factory.manual_stop() only when %s: in the other case the operator '
+                      'is told the peer is stopped while the operator flag is never cleared and pending restart '
+                      'timers keep running' % ' and '.join(('' if v else 'not ') + '(' + src_of(t) + ')' for t, v in cs),
+                expected='factory.manual_stop() on every request', key='rest-manual_stop')
+    elif len(calls) == 1:
         rep.ok('R13.d', 'rest-manual_stop', file=f.file, line=calls[0].lineno, found=src_of(calls[0]))
     else:
         rep.bad('R13.d', 'rest-manual_stop', file=f.file, line=f.node.lineno,
